@@ -24,3 +24,43 @@ def run_batch(lines: list[str], timeout: float = 1800) -> list[str]:
     if len(out) != len(lines):
         raise ModelError(f"driver returned {len(out)} replies for {len(lines)} requests")
     return out
+
+
+def run_reader(requests: list[str], timeout: float = 1800) -> list[str]:
+    """the specification reader of OSq/Sem/Grammar.lean (`3 x<hex>` / `1 x<hex>` per line) via `lake env lean --run`"""
+    if not requests:
+        return []
+    data = ("\n".join(requests) + "\n").encode()
+    p = subprocess.run(["lake", "env", "lean", "--run", "OSq/ReadDriver.lean"], cwd=LEAN_DIR, input=data,
+                       stdout=subprocess.PIPE, stderr=subprocess.PIPE, timeout=timeout)
+    if p.returncode != 0:
+        raise ModelError(f"reader exit {p.returncode}: {p.stderr.decode()[:500]}")
+    out = p.stdout.decode().split("\n")
+    if out and out[-1] == "":
+        out.pop()
+    if len(out) != len(requests):
+        raise ModelError(f"reader returned {len(out)} replies for {len(requests)} requests")
+    return out
+
+def parse_reader(line: str):
+    """-> None (rejected) or (header ints, [tuple per line])"""
+    if not line.startswith("ok"):
+        return None
+    parts = line.split(" | ")
+    head = [int(x) for x in parts[0].split()[1:]]
+    unhex = lambda t: bytes.fromhex(t[1:]).decode()
+    out = []
+    for p in parts[1:]:
+        t = p.split()
+        k = t[0]
+        if k == "gate":
+            name = unhex(t[1]); n = int(t[2]); ps = [unhex(x) for x in t[3:3 + n]]; m = int(t[3 + n]); qs = [int(x) for x in t[4 + n:4 + n + m]]
+            out.append(("gate", name, ps, qs))
+        elif k == "instr":
+            name = unhex(t[1]); m = int(t[2]); qs = [int(x) for x in t[3:3 + m]]; n = int(t[3 + m]); ps = [unhex(x) for x in t[4 + m:4 + m + n]]
+            out.append(("instr", name, qs, ps))
+        elif k == "measure": out.append(("measure", int(t[1]), unhex(t[2]), int(t[3])))
+        elif k == "reset": out.append(("reset", unhex(t[1]), int(t[2])))
+        elif k == "comment": out.append(("comment", unhex(t[1]) if len(t) > 1 else ""))
+        else: out.append((k,))
+    return head, out
